@@ -1,50 +1,234 @@
+//! C21 — the RESP decoder is safe on arbitrary bytes.
+//!
+//! Every case is one `RespValue::decode` call on a fresh buffer, run on a thread with a
+//! 256 KiB stack, under catch_unwind, with a counting global allocator switched on for
+//! the duration of the call.  Observed: outcome class, decoded value, the buffer
+//! afterwards, bytes requested from the allocator.
+mod resp_common;
 use bytes::BytesMut;
+use resp_common::*;
 use samyama::protocol::resp::RespValue;
 use std::alloc::{GlobalAlloc, Layout, System};
 use std::cell::Cell;
-thread_local! { static ON: Cell<bool> = Cell::new(false); static TOTAL: Cell<u64> = Cell::new(0); static CUR: Cell<i64> = Cell::new(0); static PEAK: Cell<i64> = Cell::new(0);}
+use vh::*;
+
+thread_local! {
+    static ON: Cell<bool> = const { Cell::new(false) };
+    static TOTAL: Cell<u64> = const { Cell::new(0) };
+}
+
 struct Counting;
 unsafe impl GlobalAlloc for Counting {
     unsafe fn alloc(&self, l: Layout) -> *mut u8 {
-        let _ = ON.try_with(|o| if o.get() { TOTAL.with(|t| t.set(t.get() + l.size() as u64)); CUR.with(|c| { c.set(c.get() + l.size() as i64); PEAK.with(|p| if c.get() > p.get() { p.set(c.get()) }) }); });
+        let _ = ON.try_with(|o| {
+            if o.get() {
+                let _ = TOTAL.try_with(|t| t.set(t.get() + l.size() as u64));
+            }
+        });
         System.alloc(l)
     }
     unsafe fn dealloc(&self, p: *mut u8, l: Layout) {
-        let _ = ON.try_with(|o| if o.get() { CUR.with(|c| c.set(c.get() - l.size() as i64)); });
         System.dealloc(p, l)
     }
     unsafe fn realloc(&self, p: *mut u8, l: Layout, n: usize) -> *mut u8 {
-        let _ = ON.try_with(|o| if o.get() { TOTAL.with(|t| t.set(t.get() + n as u64)); CUR.with(|c| { c.set(c.get() + n as i64 - l.size() as i64); PEAK.with(|p| if c.get() > p.get() { p.set(c.get()) }) }); });
+        let _ = ON.try_with(|o| {
+            if o.get() {
+                let _ = TOTAL.try_with(|t| t.set(t.get() + n as u64));
+            }
+        });
         System.realloc(p, l, n)
     }
 }
 #[global_allocator]
 static A: Counting = Counting;
-fn measure(b: &[u8]) -> (u64, i64, String) {
-    let mut buf = BytesMut::from(b);
-    TOTAL.with(|t| t.set(0)); CUR.with(|t| t.set(0)); PEAK.with(|t| t.set(0));
-    ON.with(|o| o.set(true));
-    let r = RespValue::decode(&mut buf);
+
+/// decode with the allocation meter on; returns the observation and the bytes requested
+fn measured(input: &[u8]) -> (Obs, u64) {
+    let inp = input.to_vec();
+    let res = catch(move || {
+        let mut buf = BytesMut::from(&inp[..]);
+        TOTAL.with(|t| t.set(0));
+        ON.with(|o| o.set(true));
+        let r = RespValue::decode(&mut buf);
+        ON.with(|o| o.set(false));
+        let a = TOTAL.with(|t| t.get());
+        (r, buf.to_vec(), a)
+    });
     ON.with(|o| o.set(false));
-    let s = match &r { Ok(Some(_)) => "done".to_string(), Ok(None) => "none".into(), Err(e) => format!("err {}", e) };
-    drop(r);
-    (TOTAL.with(|t| t.get()), PEAK.with(|t| t.get()), s)
-}
-fn main() {
-    println!("sizeof RespValue {}", std::mem::size_of::<RespValue>());
-    let mut cases: Vec<Vec<u8>> = vec![
-        b"+OK\r\n".to_vec(), b":12\r\n".to_vec(), b":x\r\n".to_vec(), b"$-2\r\n".to_vec(), b"$3\r\nabc\r\n".to_vec(), b"$3\r\nabcde".to_vec(),
-        b"*1\r\n_\r\n".to_vec(), b"*5\r\n_\r\n_\r\n_\r\n_\r\n_\r\n".to_vec(), b"*18446744073709551615\r\n".to_vec(), b"+\xff\r\n".to_vec(),
-        b"a\r\n".to_vec(), b"a b\r\n".to_vec(), b"a b c d e f g h\r\n".to_vec(), b"\"abc\r\n".to_vec(), b"\r\n".to_vec(), b"*99999999999999999999\r\n".to_vec(), b"$99999999999999999999\r\n".to_vec(),
-        b"$536870913\r\n".to_vec(),
-    ];
-    let mut deep = Vec::new(); for _ in 0..40 { deep.extend_from_slice(b"*1\r\n"); } cases.push(deep);
-    let mut many = b"*1000\r\n".to_vec(); for _ in 0..1000 { many.extend_from_slice(b"_\r\n"); } cases.push(many);
-    let mut inl = Vec::new(); for _ in 0..1000 { inl.extend_from_slice(b"a "); } inl.extend_from_slice(b"\r\n"); cases.push(inl);
-    let mut inl2 = Vec::new(); for _ in 0..1000 { inl2.extend_from_slice(b"a"); } inl2.extend_from_slice(b"\r\n"); cases.push(inl2);
-    let mut inl3 = Vec::new(); for _ in 0..100 { inl3.extend_from_slice(b"abcdefghi "); } inl3.extend_from_slice(b"\r\n"); cases.push(inl3);
-    for c in &cases {
-        let (t, p, s) = measure(c);
-        println!("{:>6} bytes: total {:>8} peak {:>8} ratio {:.1}  {}  {:?}", c.len(), t, p, t as f64 / c.len() as f64, s, String::from_utf8_lossy(&c[..c.len().min(30)]));
+    match res {
+        Err(m) => (Obs::Panic(m), TOTAL.with(|t| t.get())),
+        Ok((r, rest, a)) => (classify(r, rest), a),
     }
+}
+
+struct Runner {
+    out: Out,
+}
+
+impl Runner {
+    fn case(&mut self, input: &[u8], what: &str) {
+        let idx = self.out.next_index();
+        if !self.out.wants(idx) {
+            self.out.skip();
+            return;
+        }
+        let (o, a) = measured(input);
+        let human = format!("{} input=\"{}\" -> {} alloc={}", what, show(input), show_obs(&o), a);
+        let g = format!("CDecode {} {} {}%Z", g_bytes(input), g_obs(&o), a);
+        let i = self.out.case(g, human.clone(), input.len() > 2);
+        // the property's own predicate on the implementation
+        let n = input.len() as u64;
+        let mut bad: Option<String> = None;
+        match &o {
+            Obs::Panic(m) => bad = Some(format!("decoder panicked: {}", m)),
+            Obs::Done(v, rest) => {
+                self.out.count("outcome_value");
+                if rest.len() + 3 > input.len() || !input.ends_with(rest) {
+                    bad = Some("a decoded value must consume >= 3 bytes and leave a suffix of the input".into());
+                } else if depth(v) > MAX_DEPTH + 1 {
+                    bad = Some(format!("decoded value nested {} deep", depth(v)));
+                }
+            }
+            Obs::More(_, rest) => {
+                self.out.count("outcome_more");
+                if rest != input {
+                    bad = Some("decoder asked for more data but changed the buffer".into());
+                }
+            }
+            Obs::Fail(c, rest) => {
+                self.out.count(if *c == "EEnc" { "outcome_error_encoding" } else { "outcome_error_protocol" });
+                if rest.len() + 2 > input.len() || !input.ends_with(rest) {
+                    bad = Some("an error must drop >= 2 bytes and leave a suffix of the input".into());
+                }
+            }
+        }
+        if bad.is_none() && a > 96 * n + 256 {
+            bad = Some(format!("allocated {} bytes for {} input bytes (bound 96*n+256 = {})", a, n, 96 * n + 256));
+        }
+        if a > 0 {
+            self.out.count("allocating");
+        }
+        if let Some(b) = bad {
+            self.out.fail(i, &human, &b, None);
+        }
+    }
+}
+
+fn main() {
+    let args = parse_args();
+    quiet_panics();
+    let shard = if args.thorough { 6000 } else { 1500 };
+    let out = Out::new(&args, "From Verif Require Import Resp.", "Resp.case", "Resp.check_case", shard);
+    let args2 = args.clone();
+    // small stack: unbounded recursion on nested arrays would overflow it
+    let handle = std::thread::Builder::new()
+        .stack_size(256 * 1024)
+        .spawn(move || run(args2, out))
+        .expect("spawn");
+    handle.join().expect("harness thread");
+}
+
+fn run(args: Args, out: Out) {
+    let mut rn = Runner { out };
+    rn.out.rule = "exhaustive: every byte string of length <= 4 (quick) / <= 5 (thorough) over the 14 symbols \
+                   + - : $ * _ 0 1 9 CR LF a \" space; mutation: valid frames (values, commands, inline commands) \
+                   with 1-3 byte-level mutations and hostile lengths (-2, 2^64-1, 2^63, 512 MiB +- 1, overlong \
+                   digits, signs); adversarial: deep array nesting (up to 5000 levels), huge counts with few \
+                   elements, long inline lines of one-byte tokens, invalid UTF-8. One decode call per case on a \
+                   256 KiB stack under catch_unwind with a counting allocator. Non-trivial = input longer than 2 \
+                   bytes; distinct by case text."
+        .to_string();
+    let max_len = if args.thorough { 5 } else { 4 };
+    let n_mut = if args.thorough { 120_000 } else { 6_000 };
+
+    // exhaustive short strings
+    let mut cur: Vec<u8> = Vec::new();
+    for len in 1..=max_len {
+        let total = (ALPHABET.len() as u64).pow(len as u32);
+        for mut k in 0..total {
+            cur.clear();
+            for _ in 0..len {
+                cur.push(ALPHABET[(k % 14) as usize]);
+                k /= 14;
+            }
+            rn.case(&cur.clone(), "exhaustive");
+            rn.out.count("exhaustive");
+        }
+    }
+    // adversarial fixed family
+    let mut adv: Vec<(String, Vec<u8>)> = vec![
+        ("neg-len".into(), b"$-2\r\n".to_vec()),
+        ("neg-len".into(), b"$-9223372036854775808\r\nabc".to_vec()),
+        ("huge-array".into(), b"*18446744073709551615\r\n".to_vec()),
+        ("huge-array".into(), b"*18446744073709551615\r\n:1\r\n:2\r\n".to_vec()),
+        ("huge-array".into(), b"*4294967296\r\n$1\r\na\r\n".to_vec()),
+        ("huge-array".into(), b"*9223372036854775807\r\n*9223372036854775807\r\n*9223372036854775807\r\n".to_vec()),
+        ("huge-bulk".into(), b"$9223372036854775807\r\nab".to_vec()),
+        ("huge-bulk".into(), b"$536870912\r\nab".to_vec()),
+        ("huge-bulk".into(), b"$536870913\r\nab".to_vec()),
+        ("huge-bulk".into(), b"$18446744073709551615\r\nab".to_vec()),
+        ("bulk-no-crlf".into(), b"$3\r\nabcXY".to_vec()),
+        ("bad-utf8".into(), b"+\xff\xfe\r\n".to_vec()),
+        ("bad-utf8".into(), b"GET \xed\xa0\x80\r\n".to_vec()),
+        ("bad-utf8".into(), b"*\xc3\r\n".to_vec()),
+    ];
+    for depth_n in [1usize, 31, 32, 33, 34, 64, 1000, 5000] {
+        let mut b = Vec::new();
+        for _ in 0..depth_n {
+            b.extend_from_slice(b"*1\r\n");
+        }
+        adv.push((format!("nest-{}-open", depth_n), b.clone()));
+        b.extend_from_slice(b":7\r\n");
+        adv.push((format!("nest-{}", depth_n), b.clone()));
+        let mut c = Vec::new();
+        for _ in 0..depth_n {
+            c.extend_from_slice(b"*2\r\n:1\r\n");
+        }
+        c.extend_from_slice(b"PING\r\n");
+        adv.push((format!("nest2-{}", depth_n), c));
+    }
+    for n in [1usize, 3, 4, 5, 8, 9, 100, 1000] {
+        let mut b = format!("*{}\r\n", n).into_bytes();
+        for _ in 0..n {
+            b.extend_from_slice(b"_\r\n");
+        }
+        adv.push((format!("many-{}", n), b.clone()));
+        let mut c = format!("*{}\r\n", n).into_bytes();
+        for _ in 0..n {
+            c.extend_from_slice(b"a\r\n");
+        }
+        adv.push((format!("many-inline-{}", n), c));
+        let mut d = Vec::new();
+        for _ in 0..n {
+            d.extend_from_slice(b"a ");
+        }
+        d.extend_from_slice(b"\r\n");
+        adv.push((format!("inline-tokens-{}", n), d));
+        let mut e = vec![b'"'];
+        for _ in 0..n {
+            e.extend_from_slice(b"\\n");
+        }
+        adv.push((format!("inline-unclosed-{}", n), [e.clone(), b"\r\n".to_vec()].concat()));
+    }
+    for (what, b) in &adv {
+        rn.case(b, what);
+        rn.out.count("adversarial");
+    }
+    // mutation fuzzing of valid frames
+    for c in 0..n_mut {
+        let mut r = Rng::for_case(args.seed, c);
+        let base: Vec<u8> = match r.below(5) {
+            0 => {
+                let mut l = rand_inline(&mut r);
+                l.extend_from_slice(b"\r\n");
+                l
+            }
+            1 | 2 => impl_encode(&rand_command(&mut r)),
+            _ => impl_encode(&rand_value(&mut r, 3, true)),
+        };
+        let m = mutate(&mut r, &base);
+        rn.case(&m, "mutated");
+        rn.out.count("mutated");
+    }
+    rn.out.finish();
 }
